@@ -17,6 +17,20 @@ CHECKS = {
             'with the algebraic consequences named in the statement; tolerance 1e-11 vs measured noise 2e-15',
             'trusts numpy and the reference CLT in vlib/ref/clt.py (auditable, 60 lines); materials with singular '
             '3-D compliance are outside the claim', '3 C01'),
+    'C02': ('Hypothesis-generated panels; differential oracle: energy Hessian by Gauss quadrature of strain operators '
+            '(reference model) + metamorphic relations (tiling additivity, pre-load = geometric matrix, rigid-body null vectors)',
+            'generated-input search over model x geometry x laminate x 24 edge flags x series orders x sub-interval x '
+            'placement; every entry of Panel.calc_k0 compared with an independent strain-energy Hessian (tolerance 1e-9 vs '
+            'measured noise 4e-13), plus symmetry/PSD/tiling/pre-load/rigid-body consequences',
+            'trusts vlib/ref/panel.py + vlib/ref/clt.py; kernels are the pre-built extensions (no Cython available), '
+            'Python orchestration is live; m,n <= 8', '3 C02'),
+    'C10': ('exhaustive enumeration of the finite table domains + Hypothesis-generated sub-intervals/maps/flags; oracle: '
+            'exact rational Bardell polynomials; C sources parsed and evaluated in exact rational arithmetic',
+            'the C library is compiled from the current tree and every one of the 6x900 full-interval entries x 256 flag '
+            'patterns, all Gauss orders 2..64 and all 11x900 tabulated closed-form expressions are checked against exact '
+            'rationals; sub-interval and mapped tables are additionally sampled at generated arguments',
+            'trusts gcc, ctypes, Fraction arithmetic and vlib/ref/bardell.py; floating-point evaluation of the '
+            'high-index closed forms is judged against eps*sum|terms| (conditioning), their coefficients exactly', '3 C10'),
 }
 
 ALL = ['C%02d' % i for i in range(1, 21)]
